@@ -38,6 +38,8 @@ PrOf(p) == [price |-> p.price,
 
 CbOf(x) == IF x.kind = "resp"
            THEN [kind |-> "resp", id |-> x.id, outs |-> x.outs, err |-> x.err]
+           ELSE IF x.kind = "react"
+           THEN [kind |-> "react", id |-> x.id, op |-> x.cause, ok |-> ~x.err]
            ELSE [kind |-> "state", id |-> x.id, cause |-> x.cause]
 
 T4(a) == <<a[1], a[2], a[3], a[4]>>
@@ -60,7 +62,8 @@ S_ctx(st)     == FnOf(st.ctx, LAMBDA c : c.id,
                                   cap |-> c.cap, timeout |-> c.timeout, super |-> c.super, rep |-> c.rep,
                                   freq |-> c.freq, total |-> c.total, batch |-> c.batch,
                                   reqCount |-> c.reqCount, respCount |-> c.respCount, bthr |-> c.bthr,
-                                  bstate |-> c.bstate, state |-> c.state, thr |-> c.thr, module |-> c.module])
+                                  bstate |-> c.bstate, state |-> c.state, thr |-> c.thr, module |-> c.module,
+                                  rresp |-> c.rresp, rstate |-> c.rstate])
 S_q(q)        == {<<x[1], x[2]>> : x \in RangeOf(q)}
 S_qh(q)       == FnOf(q, LAMBDA x : x.id, LAMBDA x : x.h)
 S_req(st)     == FnOf(st.req, LAMBDA r : T4(r.rid),
@@ -110,8 +113,9 @@ Conf ==
                          /\ e.id = nctx + 1
             ELSE Rej(CanCall(e.signer, e.svc, e.provs, e.cap, e.capok, e.inok, e.timeout))
       [] e.name = "ModCreate" ->
-            IF e.ok THEN /\ ModCreate(e.module, e.signer, e.svc, e.provs, e.input, e.cap, e.capok, e.inok,
-                                      e.timeout, e.super, e.rep, e.freq, e.total, e.state, e.thr)
+            IF e.ok THEN /\ ModCreateR(e.module, e.signer, e.svc, e.provs, e.input, e.cap, e.capok, e.inok,
+                                      e.timeout, e.super, e.rep, e.freq, e.total, e.state, e.thr,
+                                      e.rresp, e.rstate)
                          /\ e.id = nctx + 1
             ELSE Rej(CanModCreate(e.signer, e.svc, e.provs, e.capok, e.inok, e.timeout, e.thr))
       [] e.name = "Pause" -> IF e.ok THEN Pause(e.signer, e.id) ELSE Rej(CanPause(e.signer, e.id))
